@@ -110,9 +110,10 @@ SB_CONFIGS = None
 
 
 def sb_configs(tier):
-    Ls = [1, 5, 15, 20, 30, 60] if tier == "thorough" else [5, 15, 60]
+    # includes slot lengths that do not divide a day (7, 11, 13, 25, 35, 50, 55 min): whole-day arithmetic shortcuts break there
+    Ls = [1, 5, 7, 10, 11, 13, 15, 20, 25, 30, 35, 50, 55, 60] if tier == "thorough" else [5, 7, 15, 25, 50, 60]
     offs = [(0, 0), (8, 13)]
-    spans = [180, 1440 + 37, 2 * 1440] if tier == "thorough" else [180, 1440 + 37]
+    spans = [180, 1440 + 37, 2 * 1440, 3 * 1440 + 11] if tier == "thorough" else [180, 1440 + 37]
     return [(L, off, span) for L in Ls for off in offs for span in spans]
 
 
